@@ -21,12 +21,14 @@ def jscript(cmds):
 class Fixture:
     """a real Tx whose inputs have known kinds and spent outputs"""
 
-    def __init__(self, rng, unsigned_taproot=False):
+    def __init__(self, rng, unsigned_taproot=False, script_inputs=False):
         from buidl.tx import Tx, TxIn, TxOut
         from buidl.script import Script
         from buidl.witness import Witness
         self.rng = rng
         nin = rng.choice([1, 1, 2, 3, 4, 6]) if not unsigned_taproot else rng.choice([2, 3, 4])
+        if script_inputs:
+            nin = rng.choice([3, 4])
         nout = rng.choice([0, 1, 1, 2, 3, 6])
         self.kinds = []
         self.meta = []
@@ -35,6 +37,8 @@ class Fixture:
             kind = rng.choice(["p2pkh", "p2sh", "p2wpkh", "p2sh-p2wpkh", "p2wsh", "p2sh-p2wsh", "p2tr-key", "p2tr-script"])
             if unsigned_taproot:
                 kind = "p2tr-key" if k < nin - 1 or rng.random() < 0.7 else "p2pkh"
+            if script_inputs:
+                kind = ["p2wsh", "p2sh", "p2sh-p2wsh", "p2wsh", "p2sh-p2wpkh"][(k + nin) % 5]
             m = self.make_input(kind)
             if unsigned_taproot:
                 m["witness"], m["script_sig"] = [], []          # nothing signed yet
@@ -140,7 +144,9 @@ class Fixture:
         from buidl.timelock import Sequence, Locktime
         r = self.rng
         tx = self.tx
-        choices = ["in_seq", "in_outpoint", "locktime", "version", "spent_amount", "add_output"]
+        choices = ["in_seq", "in_outpoint", "locktime", "version", "spent_amount", "add_output", "add_input"]
+        if len(tx.tx_ins) >= 2:
+            choices += ["del_input", "swap_inputs", "swap_inputs"]
         if tx.tx_outs:
             choices += ["out_amount", "out_script", "del_output", "out_amount", "out_script"]
         if any(k.startswith("p2tr") for k in self.kinds):
@@ -148,7 +154,29 @@ class Fixture:
         forced = k
         what = what or r.choice(choices)
         k = r.randrange(len(tx.tx_ins)) if forced is None else forced
-        if what == "in_seq":
+        if what in ("del_input", "swap_inputs", "add_input"):
+            # the list of inputs itself changes: another input now sits at an index that was queried before
+            from buidl.witness import Witness
+            if what == "del_input":
+                del tx.tx_ins[k], self.kinds[k], self.meta[k], self.wit_model[k]
+            elif what == "swap_inputs":
+                j = (k + 1 + r.randrange(len(tx.tx_ins) - 1)) % len(tx.tx_ins)
+                for lst in (tx.tx_ins, self.kinds, self.meta, self.wit_model):
+                    lst[k], lst[j] = lst[j], lst[k]
+            else:
+                kind = r.choice(["p2pkh", "p2sh", "p2wpkh", "p2sh-p2wpkh", "p2wsh", "p2sh-p2wsh", "p2tr-key", "p2tr-script"])
+                m = self.make_input(kind)
+                t = TxIn(self.rb(32), r.randrange(2 ** 32), Script(list(m["script_sig"])), r.choice([0xFFFFFFFF, 0, r.randrange(2 ** 32)]))
+                if m["witness"]:
+                    t.witness = Witness(list(m["witness"]))
+                t._value = m["amount"]
+                t._script_pubkey = Script(list(m["spk"]))
+                at = r.randrange(len(tx.tx_ins) + 1)
+                tx.tx_ins.insert(at, t)
+                self.kinds.insert(at, kind)
+                self.meta.insert(at, m)
+                self.wit_model.insert(at, list(m["witness"]))
+        elif what == "in_seq":
             tx.tx_ins[k].sequence = Sequence(r.choice([0, 1, 0xFFFFFFFF, r.randrange(2 ** 32)]))
         elif what == "in_outpoint":
             if r.random() < 0.5:
@@ -187,7 +215,7 @@ class Fixture:
                 wm.extend(items)
         return what
 
-    def query(self, cid, k=None, ht=None):
+    def query(self, cid, k=None, ht=None, mode=None):
         """one digest query on the real object; returns the case for TLC"""
         from buidl.script import Script, RedeemScript, WitnessScript
         r = self.rng
@@ -199,7 +227,7 @@ class Fixture:
         ht = r.choice(HTS) if ht is None else ht
         kind = self.kinds[k] if k < len(self.kinds) else "p2pkh"
         m = self.meta[k] if k < len(self.meta) else None
-        mode = r.choice(["direct", "direct", "dispatch"]) if m is not None else "direct"
+        mode = (mode or r.choice(["direct", "direct", "dispatch"])) if m is not None else "direct"
         case = {"id": cid, "idx": k, "ht": ht, "kind": kind, "redeem": [], "wscript": [], "sc": [], "ext": 0, "leafver": 0,
                 "leafscript": [], "mode": mode}
         if m is None or kind in ("p2pkh", "p2sh") or (mode == "direct" and r.random() < 0.15 and kind not in ("p2tr-key", "p2tr-script")):
@@ -413,6 +441,20 @@ def run(ctx):
                 c["after_edit"], c["step"] = "sign-in-place:%d" % (nin - 1), step
                 cases.append(c)
                 step += 1
+        # the list of inputs changes between queries made through the dispatcher Tx.sig_hash (which works out the algorithm and the
+        # script code of input i from the input itself): every input is queried, the list is edited, every input is queried again
+        for h in range(6 if q else 60):
+            fx = Fixture(rng, script_inputs=True)
+            step = 0
+            last = "none"
+            for round_ in range(3):
+                for j in range(len(fx.tx.tx_ins)):
+                    c = fx.query("li%d.s%d" % (h, step), k=j, ht=rng.choice([1, 1, 3, 0x81, 0x82]), mode="dispatch")
+                    c["after_edit"], c["step"] = last, step
+                    cases.append(c)
+                    step += 1
+                last = fx.edit(what=rng.choice(["del_input", "swap_inputs", "swap_inputs", "add_input"]) if len(fx.tx.tx_ins) >= 2 else "add_input",
+                               k=rng.randrange(len(fx.tx.tx_ins)))
         send = []
         for c in cases:
             cmeta[c["id"]] = c
